@@ -1013,6 +1013,8 @@ def check_C09(ctx, rep):
         # every iteration path calls transition unless excluded == mi
         pf = an.paths(te, history=True, record_calls=lambda f: callee_str(f).endswith('Framework::<M, R, T>::transition'), tag='sig')
         # blocks of the loop body that jump back to the header
+        ok_excl = True
+        wit_excl = None
         ok_iter = True
         wit = None
         for (x, lab) in ta.cfg.pred[h]:
@@ -1028,6 +1030,21 @@ def check_C09(ctx, rep):
         if filt_ok is not None:
             rep.ob('C09.R3', te, 'filter-predicate-is-not-the-excluded-index', filt_ok, 'closure %s' % src[1][1])
         rep.ob('C09.R3', te, 'every-non-excluded-machine-signalled', ok_iter, '' if ok_iter else 'iteration path without Signal: ' + show_facts(wit))
+        # ... and the excluded machine (the lone signaller) is passed over: within one iteration, no Signal on a path where the index
+        # was found equal to the excluded one
+        pf_it = an.paths(te, history=True, record_calls=lambda f: callee_str(f).endswith('Framework::<M, R, T>::transition'), tag='sig-iter', entry=h)
+        for (x, lab) in ta.cfg.pred[h]:
+            if x not in body:
+                continue
+            for S in pf_it.on_edge(x, h, lab):
+                called = any(f[0] == 'called' and f[3] == fr[2] for f in S)
+                smi = strip_sites(mi)
+                excl = any(f[0] == 'cmp' and ((f[1] == 'eq' and f[5] is True) or (f[1] == 'ne' and f[5] is False)) and (contains(f[2], lambda x: x == smi) or contains(f[3], lambda x: x == smi)) and
+                           (contains(f[2], lambda y: isinstance(y, tuple) and y and y[0] == 'var' and y[2] == 'AllExcept') or contains(f[3], lambda y: isinstance(y, tuple) and y and y[0] == 'var' and y[2] == 'AllExcept')) for f in S)
+                if called and excl:
+                    ok_excl = False
+                    wit_excl = S
+        rep.ob('C09.R3', te, 'excluded-machine-not-signalled-in-the-first-round', ok_excl, '' if ok_excl else 'Signal delivered on a path where the index equals the excluded machine: ' + show_facts(wit_excl))
         # excluded table
         def excluded_payload(e):
             e = unload(e)
